@@ -179,7 +179,24 @@ def main(argv=None):
         print(f"[A] {f}")
     if a["failures"]:
         ctx.boost = 10
-    res = prop.run(ctx)
+    try:
+        res = prop.run(ctx)
+    except Exception:  # noqa: BLE001
+        if not a["failures"]:
+            raise          # stage A was fine: this is an internal error of the check (exit 2)
+        # Stage A already broke (translator met unsupported code, a theorem no longer checks ...) and stages B/C
+        # depend on what stage A produces: the property is no longer shown to hold. Report that, after giving the
+        # implementation-side search a chance to find a concrete failing input.
+        log(traceback.format_exc())
+        a["failures"].append("stages B/C could not run on top of the broken stage A: "
+                             + traceback.format_exc().strip().splitlines()[-1][:300])
+        res = Result()
+        res.rule = "stage A failed and stages B/C could not run (see stage_a_failures)"
+        if hasattr(prop, "search"):
+            try:
+                res = prop.search(ctx)
+            except Exception:  # noqa: BLE001
+                log(traceback.format_exc())
     assert isinstance(res, Result)
     if res.corr_failures and ctx.boost == 1 and hasattr(prop, "search"):
         # correspondence broke: look harder for a concrete failing input on the implementation
